@@ -33,4 +33,107 @@ theorem no_main_dest_all_to_states (x : Int) (hx : 0 ≤ x) (sts : List St) (sub
   have := h.2.2.2.2 hm
   omega
 
+/-! ### cumulative receipts over any number of blocks -/
+
+/-- what a share `s` is allocated over a sequence of inflows -/
+def allocSum (s : Int) : List Int → Int
+  | [] => 0
+  | x :: xs => mulTrunc x s + allocSum s xs
+
+def sumL : List Int → Int
+  | [] => 0
+  | x :: xs => x + sumL xs
+
+/-- cumulative allocation never exceeds share × cumulative inflow, and falls short of it by less
+    than 10^-18 base units per block (the 18-digit truncation of each block's product) -/
+theorem cumulative_allocation (s : Int) (hs : 0 ≤ s) : ∀ xs : List Int, (∀ x ∈ xs, 0 ≤ x) →
+    allocSum s xs * P ≤ sumL xs * s ∧ sumL xs * s < (allocSum s xs + xs.length) * P ∨ xs = []
+  | [], _ => Or.inr rfl
+  | x :: xs, h => by
+    left
+    have hx := h x (by simp)
+    obtain ⟨a1, a2⟩ := share_truncation x s hx hs
+    rcases cumulative_allocation s hs xs (fun y hy => h y (by simp [hy])) with ⟨i1, i2⟩ | hnil
+    · simp only [allocSum, sumL, List.length_cons]
+      have e1 : (mulTrunc x s + allocSum s xs) * P = mulTrunc x s * P + allocSum s xs * P := Int.add_mul _ _ _
+      have e2 : (x + sumL xs) * s = x * s + sumL xs * s := Int.add_mul _ _ _
+      have e3 : (mulTrunc x s + allocSum s xs + ((xs.length : Nat) + 1 : Int)) * P
+          = (mulTrunc x s + 1) * P + (allocSum s xs + xs.length) * P := by
+        rw [← Int.add_mul]; congr 1; omega
+      refine ⟨by rw [e1, e2]; omega, ?_⟩
+      have : ((xs.length + 1 : Nat) : Int) = (xs.length : Int) + 1 := by omega
+      rw [this, e3, e2]; omega
+    · subst hnil
+      simp only [allocSum, sumL, List.length_cons, List.length_nil]
+      refine ⟨by simpa using a1, by simpa using a2⟩
+
+/-- the end-of-block payout of integer parts, repeated over blocks: `rem` is the recorded
+    remainder, each block adds `a` and pays out the integer part -/
+def payLoop : Int → List Int → Int × Int
+  | rem, [] => (0, rem)
+  | rem, a :: rest =>
+    let r := rem + a
+    let p := (r / P) * P
+    ((payLoop (r - p) rest).1 + p, (payLoop (r - p) rest).2)
+
+/-- fractions are carried forward exactly: everything allocated is either paid or still
+    recorded, and what is recorded after a payout is a proper fraction of a base unit — so the
+    cumulative amount PAID is the integer part of the cumulative amount ALLOCATED -/
+theorem payout_carry : ∀ (adds : List Int) (rem : Int), 0 ≤ rem → (∀ a ∈ adds, 0 ≤ a) →
+    (payLoop rem adds).1 + (payLoop rem adds).2 = rem + sumL adds ∧
+    0 ≤ (payLoop rem adds).2 ∧ (adds ≠ [] → (payLoop rem adds).2 < P)
+  | [], rem, h, _ => by simp [payLoop, sumL, h]
+  | a :: rest, rem, h, ha => by
+    have hp : (0:Int) < P := P_pos
+    have ha0 := ha a (by simp)
+    have hr : 0 ≤ rem + a := by omega
+    have h1 := Int.ediv_mul_le (rem + a) (Int.ne_of_gt hp)
+    have h2 := Int.lt_ediv_add_one_mul_self (rem + a) hp
+    have hfrac0 : 0 ≤ rem + a - (rem + a) / P * P := by omega
+    have hfrac1 : rem + a - (rem + a) / P * P < P := by
+      have : ((rem + a) / P + 1) * P = (rem + a) / P * P + P := by rw [Int.add_mul]; omega
+      omega
+    obtain ⟨i1, i2, i3⟩ := payout_carry rest (rem + a - (rem + a) / P * P) hfrac0 (fun y hy => ha y (by simp [hy]))
+    simp only [payLoop, sumL]
+    refine ⟨by omega, i2, ?_⟩
+    intro _
+    cases rest with
+    | nil => simp only [payLoop]; exact hfrac1
+    | cons b r => exact i3 (by simp)
+
+/-- C04 drift bound for one destination: after any number of blocks what the destination was
+    PAID (integer base units × 10^18) differs from share × cumulative inflow by less than one base
+    unit plus 10^-18 per block -/
+theorem cumulative_receipts_drift (s : Int) (hs : 0 ≤ s) (xs : List Int) (hx : ∀ x ∈ xs, 0 ≤ x) (hne : xs ≠ []) :
+    let paid := (payLoop 0 (xs.map (fun x => mulTrunc x s))).1
+    paid * P ≤ sumL xs * s ∧ sumL xs * s < (paid + P + xs.length) * P := by
+  have hadds : ∀ a ∈ xs.map (fun x => mulTrunc x s), 0 ≤ a := by
+    intro a ha
+    obtain ⟨x, hxm, rfl⟩ := List.mem_map.mp ha
+    exact mulTrunc_nonneg (hx x hxm) hs
+  obtain ⟨c1, c2, c3⟩ := payout_carry (xs.map (fun x => mulTrunc x s)) 0 (Int.le_refl 0) hadds
+  have hsum : sumL (xs.map (fun x => mulTrunc x s)) = allocSum s xs := by
+    clear c1 c2 c3 hadds hne hx
+    induction xs with
+    | nil => rfl
+    | cons x xs ih => simp only [List.map_cons, sumL, allocSum, ih]
+  have hne' : xs.map (fun x => mulTrunc x s) ≠ [] := by simpa using hne
+  have c3' := c3 hne'
+  rcases cumulative_allocation s hs xs hx with ⟨a1, a2⟩ | hnil
+  · simp only []
+    rw [hsum] at c1
+    have hp : (0:Int) < P := P_pos
+    generalize (payLoop 0 (xs.map (fun x => mulTrunc x s))).1 = paid at *
+    generalize (payLoop 0 (xs.map (fun x => mulTrunc x s))).2 = rem at *
+    have hA : allocSum s xs = paid + rem := by omega
+    rw [hA] at a1 a2
+    have e1 : (paid + rem) * P = paid * P + rem * P := Int.add_mul _ _ _
+    have hremP : 0 ≤ rem * P := Int.mul_nonneg c2 (Int.le_of_lt hp)
+    refine ⟨by omega, ?_⟩
+    have e2 : (paid + P + (xs.length : Int)) * P = (paid + rem + xs.length) * P + (P - rem) * P := by
+      rw [← Int.add_mul]; congr 1; omega
+    have : 0 < (P - rem) * P := Int.mul_pos (by omega) hp
+    omega
+  · exact absurd hnil hne
+
 end C4E.Props.C04
